@@ -173,6 +173,15 @@ class CallMixin:
             return self.ext_call(f.args[0], args, kw, fr, node)
         if k == "call" and f.args[0].kind == "ext" and f.args[0].args[0] == "operator.itemgetter" and len(f.args[1]) == 1 and len(args) == 1 and not kw:
             return self.mk_index(args[0], f.args[1][0])       # operator.itemgetter(i)(x) is x[i]
+        if k == "call" and f.args[0].kind == "ext" and f.args[0].args[0] == "operator.attrgetter" and len(f.args[1]) > 1 and len(args) == 1 and not kw \
+                and all(x.kind == "const" and isinstance(x.args[0], str) and "." not in x.args[0] for x in f.args[1]):
+            return mk("tuple", tuple(self.mk_attr(args[0], x.args[0], fr) for x in f.args[1]))
+        if k == "call" and f.args[0].kind == "ext" and f.args[0].args[0] == "operator.methodcaller" and f.args[1] and len(args) == 1 and not kw \
+                and f.args[1][0].kind == "const" and isinstance(f.args[1][0].args[0], str):
+            r_ = self.method_call(args[0], f.args[1][0].args[0], list(f.args[1][1:]), dict(f.args[2]), fr, node)
+            if r_ is not None:
+                return r_
+            return mk("call", mk("attr", args[0], f.args[1][0].args[0]), tuple(f.args[1][1:]), tuple(f.args[2]))
         if k == "call" and f.args[0].kind == "ext" and f.args[0].args[0] == "operator.attrgetter" and len(f.args[1]) == 1 and len(args) == 1 and not kw \
                 and f.args[1][0].kind == "const" and isinstance(f.args[1][0].args[0], str) and "." not in f.args[1][0].args[0]:
             return self.mk_attr(args[0], f.args[1][0].args[0], fr)
